@@ -281,7 +281,7 @@ Qed.
 Lemma cov2_get_rfind strict lo rs g : rs_sorted lo rs ->
   cov2_get strict rs g =
   match rfind cov_val rs g with
-  | Some k => if strict && (65535 <? k) then GPanic else GSome (wrap16 k)
+  | Some k => if 65535 <? k then GNone else GSome k
   | None => GNone
   end.
 Proof.
@@ -387,8 +387,7 @@ Proof.
   - rewrite (cov2_get_rfind strict (-1)).
     + rewrite ranges_for_glyphs_rfind. destruct (index_of g (sort_dedup G)) as [i|] eqn:E; [|reflexivity].
       pose proof (index_of_sorted_u16_bound _ _ _ S U E) as B.
-      replace (65535 <? i) with false by (symmetry; apply Z.ltb_ge; lia). rewrite andb_false_r.
-      unfold wrap16. rewrite Z.mod_small by lia. reflexivity.
+      replace (65535 <? i) with false by (symmetry; apply Z.ltb_ge; lia). reflexivity.
     + apply ranges_for_glyphs_sorted; [exact S|]. eapply Forall_impl; [|exact U]. unfold u16. intros; lia.
   - apply cov1_get_spec. exact S.
 Qed.
@@ -701,8 +700,8 @@ Proof.
   unfold cov_idx. destruct c as [l|rs]; cbn [cov_wf cov_get cov_sem].
   - intros S. rewrite cov1_get_spec by exact S. destruct (index_of g l); reflexivity.
   - intros [S F]. rewrite (cov2_get_rfind false (-1)) by exact S.
-    destruct (rfind cov_val rs g) as [k|] eqn:E; [|reflexivity]. cbn [andb].
-    pose proof (rfind_ok_bound _ _ _ F E). unfold wrap16. rewrite Z.mod_small by lia. reflexivity.
+    destruct (rfind cov_val rs g) as [k|] eqn:E; [|reflexivity].
+    pose proof (rfind_ok_bound _ _ _ F E). replace (65535 <? k) with false by (symmetry; apply Z.ltb_ge; lia). reflexivity.
 Qed.
 
 Lemma cov_build_wf G : Forall u16 G -> forall f, cov_wf (cov_build_fmt f G).
